@@ -56,6 +56,13 @@ SafeOnlyWarrantedP(i) == Tr[i].skip = "" =>
          \/ (Tr[i].act.a = "ConsumeB" /\ n.k = "new" /\ p.c.safe)
          \/ (Tr[i].act.a = "Checker" /\ n.k = "upd" /\ p.un[n.t].in /\ ~p.un[n.t].unsafe /\ ~p.st[n.t].unsafe /\ ~p.st[n.t].canc
                 /\ (p.un[n.t].tr \/ p.mp[n.t].tr) /\ p.un[n.t].t0 + Delay < p.clock)
+\* C12: trust (the basis of a safe report) only comes from the trusted connection or a local submission
+TrustedSource(j, t) == \/ (Tr[j].act.a = "Arrive" /\ Tr[j].act.t = t /\ Tr[j].act.s \in {"TT", "TX", "LOC"})
+                       \/ (Tr[j].act.a = "Inv" /\ Tr[j].act.t = t /\ Tr[j].act.s = "TT")
+TraceStart(i) == CHOOSE j \in 1..i : Tr[j].act.a = "init" /\ \A k \in (j+1)..i : Tr[k].act.a # "init"
+TrustWarrantedP(i) == \A t \in Tx : (Tr[i].st.un[t].tr \/ Tr[i].st.mp[t].tr) => \E j \in TraceStart(i)..i : TrustedSource(j, t)
+ItemTrustP(i) == (Tr[i].act.a = "ConsumeA" /\ Tr[i].skip = "" /\ Tr[i].st.c.pc = "mid") =>
+                    (Tr[i].st.c.tr = Tr[i-1].st.q[1].tr /\ Tr[i].st.c.safe = Tr[i-1].st.q[1].safe)
 One(name, i, ok) == IF ok THEN {} ELSE {<<name, i>>}
 \* state formulas are evaluated in the successor state (the variables then hold the projection recorded on line i)
 Judge(i) ==
@@ -68,6 +75,7 @@ Judge(i) ==
   \cup One("SafeWarranted", i, SafeWarranted')
   \cup One("ProofValid", i, FactsP(i)) \cup One("SpentOutputs", i, OutsP(i)) \cup One("StoredCopy", i, StoredCopyP(i))
   \cup One("SafeOnlyWarranted", i, Tr[i].act.a = "init" \/ SafeOnlyWarrantedP(i))
+  \cup One("TrustWarranted", i, TrustWarrantedP(i)) \cup One("ItemTrust", i, Tr[i].act.a = "init" \/ ItemTrustP(i))
   \cup One("SafeEventually", i, Tr[i].act.a = "init" \/ SafeEventuallyP(i))
   \cup One("RestartKeeps", i, Tr[i].act.a = "init" \/ RestartKeepsP(i))
   \cup One("NoPanic", i, NoPanicP(i)) \cup One("NoError", i, NoErrorP(i))
